@@ -29,6 +29,7 @@ var (
 )
 
 func main() {
+	debug.SetGCPercent(400) // the checks allocate many short-lived big numbers and bit slices on 16 cores
 	if len(os.Args) < 2 {
 		fmt.Fprintln(os.Stderr, "usage: runner <ID> [--tier quick|thorough] [--work dir]")
 		os.Exit(2)
